@@ -9,7 +9,10 @@ Call monitors (attached in place on cryomotl.Motl, DESIGN.md 4/C09):
                        is then entirely "kept although a lower face is crossed"); otherwise it is a plain violation.
   trim_exact           post(adapt_to_trimming): x,y,z -> x-(start-1); kept <=> 1 <= x' <= end-start+1; all other fields unaltered.
   dist_exact           post(clean_by_distance_to_points): removed <=> a reference point of the same tomogram within the radius
-                       of the complete position (calls with a distance tie are out of domain); survivors unaltered.
+                       (INCLUSIVE: an exact tie d^2 == r^2 is removed) of the complete position; only calls with a
+                       near-but-not-exact tie (|d-r| < 1e-6, not exactly equal) are out of domain; survivors unaltered.
+  dist_exact_ties_removed  same call, sub-clause with its own minimum: every particle whose NEAREST same-tomogram point lies
+                       exactly at the radius is gone (this is what an exclusive bound breaks).
   mask_exact           post(clean_by_tomo_mask): removed <=> tomogram listed, trunc(complete position) inside the mask volume
                        and mask voxel 0; everything else kept, unaltered.
 Driver-side relational oracles:
@@ -39,13 +42,13 @@ ASSUMPTIONS = [
     "inside (out-of-bounds) means c-b >= 0 and c+b < dim on every axis with b = 0 ('center') or ceil(box/2) ('whole'), as written in DESIGN.md 4/C09",
     "tomogram dimensions are given as N x 4 (tomo_id x y z) with one row per tomogram of the list; 1 x 3 input is outside the quantifier",
     "the voxel a particle sits on is trunc(complete position), used directly as array index; complete positions in (-1,0) are never generated for the mask filter",
-    "distance ties |d - radius| < 1e-6 are excluded (regenerated in the driver, out-of-domain in the call monitor)",
+    "'within the radius' is inclusive: an exact tie (d^2 == r^2 in exact rational arithmetic, every float operation of its evaluation exact) is expected REMOVED; near-but-not-exact ties |d - radius| < 1e-6 are out of domain (they cannot occur for generated cases: points, positions and radii are multiples of 1/8, so d^2 != r^2 implies |d - r| > 1e-4)",
     "clean_by_tomo_mask is judged only for lists with unique subtomo_id (removal is by id) and 0/1 masks",
     "survivor order is judged only for remove_out_of_bounds_particles; the other filters are judged as multisets of rows",
 ]
 
 CLASSES = ["oob_center_faces", "oob_whole_odd", "oob_whole_even", "oob_upper_only", "oob_multi_tomo", "oob_far", "oob_single",
-           "trim_faces", "trim_random", "dist_near", "dist_cross_tomo", "dist_shifted",
+           "trim_faces", "trim_random", "dist_near", "dist_cross_tomo", "dist_shifted", "dist_exact_tie",
            "mask_inside", "mask_outside", "mask_files_multi", "mask_single_partial"]
 KEY = "oob-lower-face"
 TIE = 1e-6
@@ -54,15 +57,15 @@ FACE = [-1.0, -0.125, 0.0, 0.125, 1.0]
 
 def plan(tier):
     if tier == "quick":
-        return dict(n_cases=640, shards=2, classes=CLASSES, timeout_s=600,
-                    min_evals={"oob_upper_survivors": 480, "oob_lower": 480, "trim_exact": 200, "dist_exact": 240,
+        return dict(n_cases=680, shards=2, classes=CLASSES, timeout_s=600,
+                    min_evals={"oob_upper_survivors": 480, "oob_lower": 480, "trim_exact": 200, "dist_exact": 330,
                                "mask_exact": 400, "oob_repr_invariance": 240, "trim_compose": 70,
-                               "dist_union_monotone": 40, "mask_complement": 85},
+                               "dist_union_monotone": 60, "mask_complement": 85, "dist_exact_ties_removed": 40},
                     min_known={"oob-lower-face": 50})
-    return dict(n_cases=9600, shards=16, classes=CLASSES, timeout_s=3000,
-                min_evals={"oob_upper_survivors": 7500, "oob_lower": 7500, "trim_exact": 3000, "dist_exact": 3600,
-                           "mask_exact": 6000, "oob_repr_invariance": 3700, "trim_compose": 1000,
-                           "dist_union_monotone": 650, "mask_complement": 1300},
+    return dict(n_cases=9520, shards=16, classes=CLASSES, timeout_s=3000,
+                min_evals={"oob_upper_survivors": 6900, "oob_lower": 6900, "trim_exact": 2900, "dist_exact": 4600,
+                           "mask_exact": 5600, "oob_repr_invariance": 3400, "trim_compose": 950,
+                           "dist_union_monotone": 850, "mask_complement": 1200, "dist_exact_ties_removed": 600},
                 min_known={"oob-lower-face": 500})
 
 
@@ -217,10 +220,10 @@ def _dist_app(A):
     feat = arr[:, O.COLS.index(fid)]
     if not (np.all(np.isfinite(q)) and np.all(np.isfinite(qf)) and np.all(np.isfinite(feat))):
         return False
-    removed, margin = O.dist_expected(arr, feat, q, qf, float(r))
-    if margin < TIE:
+    removed, margin, ties = O.dist_expected(arr, feat, q, qf, float(r))
+    if margin < TIE:                      # a near-but-not-exact tie
         return False
-    A["_c09"] = dict(arr=arr, removed=removed, q=q, qf=qf, feat=feat, r=float(r))
+    A["_c09"] = dict(arr=arr, removed=removed, q=q, qf=qf, feat=feat, r=float(r), ties=ties)
     return True
 
 
@@ -236,6 +239,16 @@ def _dist_post(ctx, A, S, result):
                 "nearest_point": q[int(d.argmin())].tolist() if len(d) else None}
     judge_set(ctx, "dist_exact", S["arr"], ~S["removed"], out, explain,
               what="clean_by_distance_to_points(radius=%r, feature_id=%r, inplace=%r)" % (S["r"], A["feature_id"], A["inplace"]))
+    # particles whose NEAREST same-tomogram point is at distance exactly the radius (they show an exclusive bound)
+    tie_only = [i for i in np.nonzero(S["removed"])[0] if explain(i)["nearest_point_distance"] == S["r"]]
+    if tie_only and len(set(S["arr"][:, O.ISUB].tolist())) == len(S["arr"]):      # identified by (unique) subtomo_id
+        obs = O.table(out)
+        gone = obs is not None and not set(S["arr"][tie_only, O.ISUB].tolist()) & set(obs[:, O.ISUB].tolist())
+        ctx.check("dist_exact_ties_removed", gone,
+                  {"radius": S["r"], "particles_with_nearest_point_exactly_at_radius": len(tie_only),
+                   "first": dict(_row(S["arr"], tie_only[0]), **explain(tie_only[0]))})
+        ctx.extra["dist_particles_with_nearest_point_exactly_at_radius"] = ctx.extra.get("dist_particles_with_nearest_point_exactly_at_radius", 0) + len(tie_only)
+    ctx.extra["dist_exact_tie_pairs_judged"] = ctx.extra.get("dist_exact_tie_pairs_judged", 0) + int(S["ties"])
 
 
 # ---- call monitor: clean_by_tomo_mask --------------------------------------------------------------
@@ -290,7 +303,7 @@ def setup(ctx):
     f_trim = monitors.wrap(ctx, M, "adapt_to_trimming", "trim_exact", _trim_post, _trim_app, _oob_snap)
     f_dist = monitors.wrap(ctx, M, "clean_by_distance_to_points", "dist_exact", _dist_post, _dist_app, _oob_snap)
     f_mask = monitors.wrap(ctx, M, "clean_by_tomo_mask", "mask_exact", _mask_post, _mask_app, _oob_snap)
-    ctx.declare("oob_lower", "oob_repr_invariance", "trim_compose", "dist_union_monotone", "mask_complement")
+    ctx.declare("oob_lower", "oob_repr_invariance", "trim_compose", "dist_union_monotone", "mask_complement", "dist_exact_ties_removed")
     monitors.trace(ctx, [
         ("Motl.remove_out_of_bounds_particles", f_oob, {"whole": "boundary = ceil(box_size / 2)", "center": "boundary = 0",
                                                         "particle_kept": "idx_list.append(i)"}),
@@ -592,8 +605,23 @@ def gen_dist(ctx, rng, cls, i):
     set_positions(df, c, s)
     x = c - s
     tomo = df["tomo_id"].to_numpy()
-    r = float(dy(rng, 1.5, 9.0, q=16))
+    r = float(dy(rng, 1.5, 9.0))                                   # multiple of 1/8 like every coordinate
+    tie_bases = []
+    if cls == "dist_exact_tie":
+        m = 5 * int(rng.integers(3, 15))                              # r = m/8 in [1.875, 8.75]
+        if rng.random() < 0.4:
+            m = 15 * int(rng.integers(1, 5))
+        r = m / 8.0
+        tie_bases = [(1, 0, 0, 1), (3, 4, 0, 5), (0, 3, 4, 5)] + ([(1, 2, 2, 3), (2, 1, 2, 3), (2, 10, 11, 15), (5, 10, 10, 15)] if m % 15 == 0 else [])
     pts = []
+    for j in range(n if tie_bases else 0):                            # points at distance EXACTLY r from the complete position
+        if rng.random() < 0.5:
+            b = tie_bases[int(rng.integers(0, len(tie_bases)))]
+            off = np.array(b[:3], dtype=float)[rng.permutation(3)] * rng.choice([-1.0, 1.0], 3) * (m // b[3]) / 8.0
+            t = tomo[j]
+            if k > 1 and rng.random() < 0.2:                          # exactly at the radius, but in another tomogram: must stay
+                t = float(rng.choice([q for q in tl if q != t]))
+            pts.append([t, c[j, 0] + off[0], c[j, 1] + off[1], c[j, 2] + off[2]])
     n_pts = int(rng.integers(0, 2 + n // 2)) if rng.random() < 0.9 else 0
     empty_tomo = tl[int(rng.integers(0, k))] if (cls == "dist_cross_tomo" and rng.random() < 0.6) else None
     for _ in range(n_pts):
@@ -617,23 +645,17 @@ def gen_dist(ctx, rng, cls, i):
         pts.append([t, p[0], p[1], p[2]])
     P = np.array(pts, dtype=float).reshape(-1, 4)
     arr = O.table(df)
-    r_small = float(np.round(r * rng.choice([0.35, 0.5, 0.8]) * 16) / 16)
-    for _ in range(200):                      # ties excluded: move the radii off every particle/point distance
-        m1 = O.dist_expected(arr, tomo, P[:, 1:], P[:, 0], r)[1]
-        m2 = O.dist_expected(arr, tomo, P[:, 1:], P[:, 0], r_small)[1]
-        if m1 >= 1e-4 and m2 >= 1e-4:
-            break
-        r += 1.0 / 128 if m1 < 1e-4 else 0.0
-        r_small += 1.0 / 128 if m2 < 1e-4 else 0.0
-    removed = O.dist_expected(arr, tomo, P[:, 1:], P[:, 0], r)[0]
+    r_small = max(0.125, float(np.round(r * rng.choice([0.35, 0.5, 0.8]) * 8) / 8))
+    removed, margin, ties = O.dist_expected(arr, tomo, P[:, 1:], P[:, 0], r)
+    margin = min(margin, O.dist_expected(arr, tomo, P[:, 1:], P[:, 0], r_small)[1])
     split = rng.random(len(P)) < 0.5
     case = dict(kind="dist", df=df, P=P, r=r, r_small=r_small, split=split, inplace=bool(rng.integers(0, 2)),
                 out_file=bool(rng.random() < 0.12), kw=bool(rng.integers(0, 2)), colperm=rng.permutation(5),
-                int_ids=bool(rng.integers(0, 2)), exp_kept=int((~removed).sum()), n=n)
+                int_ids=bool(rng.integers(0, 2)), exp_kept=int((~removed).sum()), n=n, near_tie=bool(margin < TIE))
     case["summary"] = {"filter": "clean_by_distance_to_points", "n": n, "tomograms": k, "points": int(len(P)), "radius": r,
                        "radius_small": r_small, "points_per_tomo": {str(t): int((P[:, 0] == t).sum()) for t in tl},
                        "points_in_foreign_tomograms": int((~np.isin(P[:, 0], tl)).sum()), "inplace": case["inplace"],
-                       "expected_removed": int(removed.sum()), "positions_head": head(arr), "points_head": P[:3].tolist()}
+                       "expected_removed": int(removed.sum()), "exact_tie_pairs": int(ties), "positions_head": head(arr), "points_head": P[:3].tolist()}
     return case
 
 
@@ -668,6 +690,9 @@ def run_dist(ctx, case):
         return all_ids - set(out["subtomo_id"].tolist())
 
     P = case["P"]
+    if case["near_tie"]:                      # cannot happen on the 1/8 lattice; kept as a guard
+        ctx.ood("dist_exact")
+        return
     of = os.path.join(ctx.scratch, "dist_%d.em" % case["i"]) if case["out_file"] else None
     R = removed_by(P, case["r"], case["inplace"], of, case["kw"])
     if R is None or case["i"] % 3 == 2 or len(P) == 0:
